@@ -25,6 +25,16 @@ def impl():
     import TexSoup
     import TexSoup.utils, TexSoup.category, TexSoup.tokens, TexSoup.reader, TexSoup.data, TexSoup.tex
     assert os.path.realpath(TexSoup.__file__).startswith(os.path.realpath(REPO) + os.sep), TexSoup.__file__
+    if not getattr(TexSoup.TexSoup, '_verif_watchdog', False):
+        # every parse the harness asks for runs under the watchdog (a hang becomes ImplHang, not a stuck check)
+        inner = TexSoup.TexSoup
+
+        def TexSoup_watched(*a, **k):
+            with time_limit():
+                return inner(*a, **k)
+        TexSoup_watched._verif_watchdog = True
+        TexSoup_watched.__doc__ = inner.__doc__
+        TexSoup.TexSoup = TexSoup_watched
     return TexSoup
 
 
@@ -43,8 +53,49 @@ def dec(w):
 DIAGNOSTIC = {'EOFError': 'ERR EOF', 'TypeError': 'ERR TYPE', 'AssertionError': 'ERR ASSERT'}
 
 
+class ImplHang(Exception):
+    """The implementation did not return within IMPL_TIME_LIMIT seconds (treated as non-termination)."""
+
+
+IMPL_TIME_LIMIT = int(os.environ.get('VERIF_IMPL_TIME_LIMIT', '20'))
+
+
+class time_limit:
+    """SIGALRM watchdog around one call into the implementation (main thread only; a no-op elsewhere).
+    The proved model terminates on every input (structural recursion on fuel); a call into the code that
+    does not is reported as `ERR HANG`, which no model answer equals."""
+
+    hangs = 0      # per process; after two hangs the limit drops so that a looping change cannot stall a check for hours
+
+    def __init__(self, seconds=None):
+        self.seconds = seconds or (IMPL_TIME_LIMIT if time_limit.hangs < 2 else min(IMPL_TIME_LIMIT, 3))
+        self.armed = False
+
+    def _fire(self, signum, frame):
+        time_limit.hangs += 1
+        raise ImplHang('no answer within %d s' % self.seconds)
+
+    def __enter__(self):
+        import signal
+        import threading
+        if threading.current_thread() is threading.main_thread():
+            self.old = signal.signal(signal.SIGALRM, self._fire)
+            signal.alarm(self.seconds)
+            self.armed = True
+        return self
+
+    def __exit__(self, *exc):
+        if self.armed:
+            import signal
+            signal.alarm(0)
+            signal.signal(signal.SIGALRM, self.old)
+        return False
+
+
 def classify_exc(e):
     """Map a Python exception to the model's error vocabulary."""
+    if isinstance(e, ImplHang):
+        return 'ERR HANG'
     n = type(e).__name__
     return DIAGNOSTIC.get(n, 'ERR INTERNAL')
 
@@ -98,7 +149,8 @@ def impl_parse(s, tol=0, skip=()):
     """Canonical result of TexSoup(s): 'TREE [...] SER ...' or 'ERR ...' (+ exception)."""
     T = impl()
     try:
-        soup = T.TexSoup(s, skip_envs=tuple(skip), tolerance=tol)
+        with time_limit():
+            soup = T.TexSoup(s, skip_envs=tuple(skip), tolerance=tol)
         return 'TREE %s SER %s' % (canon_root(soup), enc(str(soup))), soup, None
     except RecursionError:
         raise
@@ -113,11 +165,22 @@ def impl_tokens(s):
     from TexSoup.category import categorize
     from TexSoup.tokens import tokenize
     try:
-        return canon_tokens(list(tokenize(categorize(s)))), None
+        with time_limit():
+            toks = list(tokenize(categorize(s)))
+        return canon_tokens(toks), None
     except BaseException as e:
         if isinstance(e, (KeyboardInterrupt, SystemExit)):
             raise
         return classify_exc(e), e
+
+
+def impl_token_list(s):
+    """list(tokenize(categorize(s))) under the watchdog (raises ImplHang when it does not return)."""
+    impl()
+    from TexSoup.category import categorize
+    from TexSoup.tokens import tokenize
+    with time_limit():
+        return list(tokenize(categorize(s)))
 
 
 def parse_req(s, tol=0, skip=()):
